@@ -379,3 +379,168 @@ pub fn run_staked(rng: &mut Rng, n: usize, rep: &mut Report) {
         }
     }
 }
+
+
+// ---------------------------------------------------------------------------------------------------------------
+// values out of the six venue-backed arms: the exchange-rate re-scaling happens INSIDE `try_from_bank`, so the family lines
+// for it are taken from the real adapter on really-laid-out reserve / spot-market accounts (never from a copy of the arm)
+
+fn price_accounts(is_pyth: bool, okey: &Pubkey, now: i64, slot: u64, pyth_price: i64, swb_value: i128) -> (Vec<u8>, Pubkey) {
+    let mut odata = Vec::new();
+    if is_pyth {
+        let upd = PriceUpdateV2 {
+            write_authority: Pubkey::default(),
+            verification_level: VerificationLevel::Full,
+            price_message: PriceFeedMessage { feed_id: okey.to_bytes(), price: pyth_price, conf: 0, exponent: 0, publish_time: now - 1, prev_publish_time: now - 2, ema_price: pyth_price, ema_conf: 0 },
+            posted_slot: slot,
+        };
+        odata.extend_from_slice(<PriceUpdateV2 as Discriminator>::DISCRIMINATOR);
+        upd.serialize(&mut odata).unwrap();
+        if odata.len() < PriceUpdateV2::LEN { odata.resize(PriceUpdateV2::LEN, 0); }
+        (odata, pyth_solana_receiver_sdk::id())
+    } else {
+        let mut feed: PullFeedAccountData = bytemuck::Zeroable::zeroed();
+        feed.result.value = swb_value;
+        feed.result.std_dev = 0;
+        feed.last_update_timestamp = now - 1;
+        odata.extend_from_slice(&<PullFeedAccountData as switchboard_on_demand::Discriminator>::DISCRIMINATOR);
+        odata.extend_from_slice(bytemuck::bytes_of(&feed));
+        (odata, SWITCHBOARD_PULL_ID)
+    }
+}
+
+/// `ig.kpyth|kswb|spyth|sswb <liq bits> <col> <dec> <p>` and `ig.dpyth|dswb <cum> <dec> <p>`  =>  `some <adjusted i64>` (Pyth, exponent 0)
+/// / `ok <price bits>` (Switchboard) / `none` (MathError) from the REAL adapter
+pub fn venue_value_lines(rng: &mut Rng, n: usize, out: &mut Vec<String>) {
+    crate::stubs::install();
+    let setups = [
+        (OracleSetup::KaminoPythPush, "ig.kpyth"), (OracleSetup::KaminoSwitchboardPull, "ig.kswb"),
+        (OracleSetup::SolendPythPull, "ig.spyth"), (OracleSetup::SolendSwitchboardPull, "ig.sswb"),
+        (OracleSetup::DriftPythPull, "ig.dpyth"), (OracleSetup::DriftSwitchboardPull, "ig.dswb"),
+    ];
+    for i in 0..n {
+        let (setup, name) = setups[i % setups.len()];
+        let (slot, now) = (1000u64 + rng.below(1000), 1_700_000_000i64 + rng.range(0, 1_000_000));
+        crate::stubs::set_clock(now, slot);
+        let clock = Clock { slot, epoch_start_timestamp: 0, epoch: 0, leader_schedule_epoch: 0, unix_timestamp: now };
+        let is_pyth = name.ends_with("pyth");
+        let okey = Pubkey::new_from_array([3u8; 32]);
+        let vkey = Pubkey::new_from_array([5u8; 32]);
+        let mut bank = Bank::default();
+        bank.config.oracle_setup = setup;
+        bank.config.oracle_max_age = 60;
+        bank.config.oracle_keys[0] = okey;
+        bank.config.oracle_keys[1] = vkey;
+        let (l, c, d, p) = crate::fam_integr::gen_reserve_price(rng);
+        let p = if rng.chance(1, 12) { -p } else { p };
+        let p64 = p.clamp(i64::MIN as i128, i64::MAX as i128) as i64;
+        let mut vdata: Vec<u8> = Vec::new();
+        let vowner;
+        let args;
+        match name.as_bytes()[3] {
+            b'k' => {
+                // total liquidity l = available (integer part) + borrowed_sf / 2^60 (fraction)
+                if l < 0 || (l >> 48) > u64::MAX as i128 { continue; }
+                let mut r: kamino_mocks::state::MinimalReserve = bytemuck::Zeroable::zeroed();
+                r.slot = slot;
+                r.available_amount = (l >> 48) as u64;
+                r.borrowed_amount_sf = (((l & ((1i128 << 48) - 1)) as u128) << 12).to_le_bytes();
+                r.mint_total_supply = c;
+                r.mint_decimals = d as u64;
+                vdata.extend_from_slice(<kamino_mocks::state::MinimalReserve as Discriminator>::DISCRIMINATOR);
+                vdata.extend_from_slice(bytemuck::bytes_of(&r));
+                vowner = kamino_mocks::ID;
+                args = format!("{} {} {}", l, c, d);
+            }
+            b's' => {
+                if l < 0 || (l >> 48) > u64::MAX as i128 { continue; }
+                let li = (l >> 48) << 48;
+                let mut r: solend_mocks::state::SolendMinimalReserve = bytemuck::Zeroable::zeroed();
+                r.last_update_slot = slot;
+                r.liquidity_available_amount = (l >> 48) as u64;
+                r.collateral_mint_total_supply = c;
+                r.liquidity_mint_decimals = d;
+                vdata.extend_from_slice(<solend_mocks::state::SolendMinimalReserve as Discriminator>::DISCRIMINATOR);
+                vdata.extend_from_slice(bytemuck::bytes_of(&r));
+                vowner = solend_mocks::ID;
+                args = format!("{} {} {}", li, c, d);
+            }
+            _ => {
+                let cum = crate::fam_integr::cum_interest(rng);
+                let dd = rng.below(20) as u32;
+                let m = crate::fam_integr::spot_market(dd, cum, now as u64);
+                vdata.extend_from_slice(<drift_mocks::state::MinimalSpotMarket as Discriminator>::DISCRIMINATOR);
+                vdata.extend_from_slice(bytemuck::bytes_of(&m));
+                vowner = drift_mocks::ID;
+                args = format!("{} {}", cum, dd);
+            }
+        }
+        let (mut odata, oowner) = price_accounts(is_pyth, &okey, now, slot, p64, p);
+        let (mut l1, mut l2) = (1u64, 1u64);
+        let a0 = AccountInfo::new(&okey, false, false, &mut l1, &mut odata, &oowner, false, 0);
+        let a1 = AccountInfo::new(&vkey, false, false, &mut l2, &mut vdata, &vowner, false, 0);
+        let ais = [a0, a1];
+        let r = catch_unwind(AssertUnwindSafe(|| {
+            let ad = OraclePriceFeedAdapter::try_from_bank(&bank, &ais, &clock)?;
+            ad.get_price_of_type(OraclePriceType::RealTime, None, 0)
+        }));
+        let res = match r {
+            Err(_) => "panic".to_string(),
+            Ok(Ok(v)) => {
+                if is_pyth {
+                    if v.to_bits() & ((1i128 << 48) - 1) != 0 { continue; }
+                    format!("some {}", v.to_bits() >> 48)
+                } else {
+                    format!("ok {}", v.to_bits())
+                }
+            }
+            Ok(Err(e)) => match crate::errcode(e) {
+                6062 => "none".to_string(),
+                c if name.as_bytes()[3] == b'd' && c == 6000 + drift_mocks::DriftMocksError::MathError as u32 => "none".to_string(),
+                _ => continue,
+            },
+        };
+        out.push(format!("{} {} {} => {}", name, args, if is_pyth { p64 as i128 } else { p }, res));
+    }
+}
+
+
+/// the Kamino + Pyth arm of the REAL adapter as a function: reserve with total liquidity `l` (I80F48 bits), collateral
+/// supply `c`, `d` decimals, Pyth price `p` (exponent 0)  ->  the adjusted integer price, or None (error / not integral)
+pub fn kamino_pyth_adjusted(l: i128, c: u64, d: u8, p: i64) -> Option<i64> {
+    crate::stubs::install();
+    if l < 0 || (l >> 48) > u64::MAX as i128 { return None; }
+    let (slot, now) = (1000u64, 1_700_000_000i64);
+    crate::stubs::set_clock(now, slot);
+    let clock = Clock { slot, epoch_start_timestamp: 0, epoch: 0, leader_schedule_epoch: 0, unix_timestamp: now };
+    let okey = Pubkey::new_from_array([3u8; 32]);
+    let vkey = Pubkey::new_from_array([5u8; 32]);
+    let mut bank = Bank::default();
+    bank.config.oracle_setup = OracleSetup::KaminoPythPush;
+    bank.config.oracle_max_age = 60;
+    bank.config.oracle_keys[0] = okey;
+    bank.config.oracle_keys[1] = vkey;
+    let mut r: kamino_mocks::state::MinimalReserve = bytemuck::Zeroable::zeroed();
+    r.slot = slot;
+    r.available_amount = (l >> 48) as u64;
+    r.borrowed_amount_sf = (((l & ((1i128 << 48) - 1)) as u128) << 12).to_le_bytes();
+    r.mint_total_supply = c;
+    r.mint_decimals = d as u64;
+    let mut vdata: Vec<u8> = Vec::new();
+    vdata.extend_from_slice(<kamino_mocks::state::MinimalReserve as Discriminator>::DISCRIMINATOR);
+    vdata.extend_from_slice(bytemuck::bytes_of(&r));
+    let vowner = kamino_mocks::ID;
+    let (mut odata, oowner) = price_accounts(true, &okey, now, slot, p, 0);
+    let (mut l1, mut l2) = (1u64, 1u64);
+    let a0 = AccountInfo::new(&okey, false, false, &mut l1, &mut odata, &oowner, false, 0);
+    let a1 = AccountInfo::new(&vkey, false, false, &mut l2, &mut vdata, &vowner, false, 0);
+    let ais = [a0, a1];
+    let r = catch_unwind(AssertUnwindSafe(|| {
+        let ad = OraclePriceFeedAdapter::try_from_bank(&bank, &ais, &clock)?;
+        ad.get_price_of_type(OraclePriceType::RealTime, None, 0)
+    }));
+    match r {
+        Ok(Ok(v)) if v.to_bits() & ((1i128 << 48) - 1) == 0 => i64::try_from(v.to_bits() >> 48).ok(),
+        _ => None,
+    }
+}
